@@ -61,6 +61,9 @@ FieldsOf(np) == LET ps == IF np = 1 THEN {"T"} ELSE Params
                 \cup { <<[t |-> "direct", p |-> "T"], [t |-> "compactp", p |-> "T"]>>, <<[t |-> "compactp", p |-> "T"], [t |-> "direct", p |-> "T"]>>,
                        <<[t |-> "assoc", p |-> "T"], [t |-> "compactassoc", p |-> "T"]>>, <<[t |-> "vec", p |-> "T"], [t |-> "compactp", p |-> "T"]>>,
                        <<[t |-> "compactassoc", p |-> "T"], [t |-> "assoc", p |-> "T"]>> }       \* the same generic type plain and compact
+                \* a self-referential member FIRST, then a member whose own bound is essential (and the opposite order)
+                \cup UNION {{<<[t |-> sr, p |-> "T"], [t |-> es, p |-> "T"]>>, <<[t |-> es, p |-> "T"], [t |-> sr, p |-> "T"]>>} :
+                             sr \in {"selfbox", "selfkw", "selfmix"}, es \in {"assoc", "vecassoc", "compactp", "compactassoc", "assocnamed"}}
                 \cup (IF TwoFields THEN {<<f, g>> : f \in {[t |-> t, p |-> "T"] : t \in Templates}, g \in {[t |-> t, p |-> p] : t \in {"direct", "phantom", "assoc", "selfassoc", "skipNoInfoG", "vecassoc", "compactp", "compactassoc"}, p \in ps}} ELSE {})
 \* always-covered pairs (interactions of the attribute paths with lifetimes and with skipping)
 CorePairs == {{"custom", "lifetime"}, {"custom", "lifetime2"}, {"skip", "custom"}, {"skip", "enum"}, {"skip", "where"}, {"skip", "inline"}, {"skip", "lifetime"}, {"splitattr", "enum"}, {"splitattr", "tuple"}, {"splitattr", "custom"},
